@@ -2,6 +2,7 @@ SPECIFICATION Spec
 CONSTANTS
   Configs <- ConfigsBugSmall
   Budget = 0
+  Window <- WindowAll
   Bug = "AccessMask"
 INVARIANT TableAtDone
 INVARIANT TableStaysOK
